@@ -78,8 +78,17 @@ def prove_indirect(src_root, ex: Explorer):
         w = mk_network(it, ctx)
         oc = outcomes[ctx.choose(len(outcomes), 'outcome')]
         pierced_conn = w.data_connection(state='CONNECTED')
+        at_send = []
         if oc == 'send-fails':
             w.sc.attrs['send_message'] = Recorder('send_message', fn=lambda it2, a, k: (_ for _ in ()).throw(PyRaise(exc(it2, 'ConnectionWriteError', 'x'))), is_async=True)
+        else:
+            orig_send = w.sc.attrs['send_message']
+
+            def send_and_look(it2, a, k):
+                # the peer may answer while the request is still being written: the ticket has to be awaited already
+                at_send.append(77 in w.net.attrs['_expected_connection_futures'])
+                return orig_send.fn(it2, a, k) if orig_send.fn else None
+            w.sc.attrs['send_message'] = Recorder('send_message', fn=send_and_look, is_async=True)
         if oc == 'cancel@send':
             it.aio.cancel_at = cancel_at(0)
         if oc == 'cancel@wait':
@@ -110,6 +119,8 @@ def prove_indirect(src_root, ex: Explorer):
                   f'on this exit the {" and the ".join(left)} for ticket 77 stay pending for ever: a late pierce would hand a connection to nobody, '
                   f'a late CannotConnect would be matched against a dead request')
         if oc == 'pierced':
+            ctx.prove('C11.indirect.waiter-registered-before-send', at_send == [True],
+                      'ConnectToPeer is sent before the ticket is awaited: a PeerPierceFirewall that arrives while the send is pending is dropped as an unknown ticket')
             ctx.prove('C11.indirect.exit[pierced].result', r is pierced_conn and raised is None)
             m = [x for x in w.server_sent if x.cls.qual == 'ConnectToPeer.Request']
             ctx.prove('C11.indirect.request', len(m) == 1 and m[0].attrs['ticket'] == 77 and m[0].attrs['username'] == 'bob' and m[0].attrs['typ'] == 'P')
@@ -552,6 +563,31 @@ def prove_address_and_state(src_root, ex: Explorer):
     ex.run(conn_state, 'connection-state')
 
 
+def prove_connect_to_peer_dispatch(src_root, ex: Explorer):
+    """_on_connect_to_peer: EVERY ConnectToPeer request of the server starts the connect-back (which ends in PeerPierceFirewall or in
+    CannotConnect, C11.connect_to_peer.answer[*]) - also when a connection to that user already exists: the peer is waiting on THIS ticket"""
+    def path(ctx: Ctx):
+        it = mk(src_root, ctx)
+        w = mk_network(it, ctx)
+        typ = ['P', 'D', 'F'][ctx.choose(3, 'type')]
+        existing = ctx.choose(2, 'already-connected') == 1
+        if existing:
+            w.registry.append(Stub('established connection', username='bob', connection_type=typ, state=enum(it, CONN, 'ConnectionState', 'CONNECTED'),
+                                   connection_state=enum(it, CONN, 'PeerConnectionState', 'ESTABLISHED')))
+        w.net.attrs['_create_peer_connection_tasks'] = []
+        it.natives['aioslsk.utils.task_counter'] = Native('task_counter', lambda it2, a, k: 1)
+        before = list(it.aio.tasks)
+        msg = new(it, MSG, 'ConnectToPeer.Response', username='bob', typ=typ, ip='1.2.3.4', port=10, ticket=55, privileged=False,
+                  obfuscated_port_amount=None, obfuscated_port=None)
+        run(it, it.getattr(w.net, '_on_connect_to_peer'), msg, Opaque('server'))
+        started = [t for t in it.aio.tasks if not any(t is b for b in before)]
+        ok = len(started) == 1 and getattr(getattr(started[0].coro, 'func', None), 'node', None) is not None \
+            and started[0].coro.func.node.name == '_handle_connect_to_peer' and any(x is started[0] for x in w.net.attrs['_create_peer_connection_tasks'])
+        ctx.prove(f'C11.connect_to_peer.always-handled[type={typ},connected={existing}]', ok,
+                  f'a ConnectToPeer request (type {typ}, already connected: {existing}) started {len(started)} connect-back tasks')
+    ex.run(path, 'connect_to_peer-dispatch')
+
+
 def prove_finalize(src_root, ex: Explorer):
     """_finalize_peer_connection(connection): a messaging ('P') or distributed ('D') connection becomes ESTABLISHED (its message reader
     runs, it is listed as active); only a file ('F') connection negotiates a transfer and is given the shared rate limiters"""
@@ -588,7 +624,7 @@ def prove_connect_relies(src_root, ex: Explorer):
 
 
 def items(src_root, tier):
-    return [('finalize', None), ('connect-relies', None), ('address-state', None), ('indirect', None), ('direct', None), ('fallback', None), ('race', None), ('select_port', None), ('connect_to_peer', None), ('pierce', None)]
+    return [('dispatch', None), ('finalize', None), ('connect-relies', None), ('address-state', None), ('indirect', None), ('direct', None), ('fallback', None), ('race', None), ('select_port', None), ('connect_to_peer', None), ('pierce', None)]
 
 
 def run_item(src_root, item, tier):
@@ -598,7 +634,7 @@ def run_item(src_root, item, tier):
     try:
         {'indirect': prove_indirect, 'direct': prove_direct, 'fallback': prove_fallback, 'race': prove_race, 'select_port': prove_select_port,
          'connect_to_peer': prove_connect_to_peer, 'pierce': prove_pierce, 'address-state': prove_address_and_state,
-         'connect-relies': prove_connect_relies, 'finalize': prove_finalize}[kind](src_root, ex)
+         'connect-relies': prove_connect_relies, 'finalize': prove_finalize, 'dispatch': prove_connect_to_peer_dispatch}[kind](src_root, ex)
     except Unsupported as e:
         res.errors.append(f'{kind}: unsupported: {e}')
     collect(res, ex)
